@@ -246,6 +246,66 @@ pub fn judge(wk_prog: &Program, layout: &Layout, stack: bool) -> Result<Option<(
     Ok(None)
 }
 
+/// Labels whose spelling the command language also reads as something else (radix-prefixed
+/// integers), and a label after the 65535th statement. Each query is its own case, so that every
+/// failing spelling has its own signature.
+fn special_queries() -> Vec<(&'static str, String, String, Option<u16>)> {
+    // (family, source, location token, address the assembler gave it; None = must be refused without panic)
+    let mut v = Vec::new();
+    let names = ["b1", "o7", "B0", "x", "o", "b", "b2", "xg", "r8", "_1"];
+    let mut src = String::from(".orig x2fff\nnot r1, r1\n");
+    for (i, n) in names.iter().enumerate() {
+        src.push_str(&format!("{n} add r0, r0, #{}\n", i));
+    }
+    src.push_str("last halt\n");
+    for (i, n) in names.iter().enumerate() {
+        v.push(("label-also-readable-as-something-else", src.clone(), n.to_string(), Some(0x3000 + i as u16)));
+        v.push(("label-also-readable-as-something-else", src.clone(), format!("{n}+1"), Some(0x3001 + i as u16)));
+    }
+    let far = ".orig x0\n.blkw xFFFF\nend .break\n".to_string();
+    for tok in ["end", "end-1", "end+1"] {
+        v.push(("label-after-65535-words", far.clone(), tok.to_string(), None));
+    }
+    v
+}
+
+fn judge_special(src: &str, tok: &str, want: Option<u16>) -> Option<(String, String)> {
+    let script = format!("echo Q0;goto {tok};registers;echo Q1;print {tok};echo Q2;break add {tok};echo Q3;exit");
+    let res = match session(src, Env::new(false), Some(&script), 1_000_000) {
+        Ok(r) => r,
+        Err(stopped) => return Some((format!("panic/{}", stopped.panic_site()), format!("`goto {tok}`: session stopped with {}", stopped.short()))),
+    };
+    let obs = match res {
+        SessionResult::Ran(o) => o,
+        SessionResult::AsmFailed(e) => return Some(("assembler-rejected".into(), e.message)),
+        SessionResult::LoadFailed(e) => return Some(("load-failed".into(), e)),
+    };
+    if let crate::session::Ended::Panic(p) = &obs.ended {
+        return Some((format!("panic/{}", p.trim_start_matches("panic at ").split(':').take(2).collect::<Vec<_>>().join(":")), format!("`goto {tok};print {tok};break add {tok}` panicked: {p}")));
+    }
+    let start = obs.machine.orig;
+    match want {
+        None => {
+            if obs.machine.pc != start {
+                return Some(("moved".into(), format!("`goto {tok}` moved PC to x{:04x}", obs.machine.pc)));
+            }
+            None
+        }
+        Some(addr) => {
+            if obs.machine.pc != addr {
+                let seg = obs.dbg.split("[Q1]").next().unwrap_or("");
+                let how = if seg.contains("OutOfBounds") || seg.contains("CommandError") || seg.contains("NotFound") { "refused" } else { "resolved elsewhere" };
+                return Some((format!("goto/{tok}"), format!("`goto {tok}` must set PC to x{addr:04x} (the address the assembler gave the label); it was {how}, PC = x{:04x}", obs.machine.pc)));
+            }
+            let user_breaks: Vec<u16> = obs.breakpoints.clone().unwrap_or_default().iter().filter(|(_, pre)| !pre).map(|(a, _)| *a).collect();
+            if user_breaks != vec![addr] {
+                return Some((format!("break-add/{tok}"), format!("`break add {tok}` must add x{addr:04x}, breakpoints are {user_breaks:04x?}")));
+            }
+            None
+        }
+    }
+}
+
 pub fn run(ctx: &Ctx) -> i32 {
     let work = workload(ctx.tier == crate::report::Tier::Thorough);
     let parts = pooled_by_flag(work.len(), 8, |i| work[i].stack, Acc::new, |acc, i| {
@@ -273,12 +333,34 @@ pub fn run(ctx: &Ctx) -> i32 {
             }
         }
     });
-    let acc = Acc::merge_all(parts);
+    let mut acc = Acc::merge_all(parts);
+    let special = special_queries();
+    let parts = crate::isolate::pooled(None, special.len(), 1, Acc::new, |acc, i| {
+        let (family, src, tok, want) = &special[i];
+        acc.eval("special-labels");
+        let mut v = judge_special(src, tok, *want);
+        if v.is_some() {
+            v = confirm_fresh(|| judge_special(src, tok, *want));
+        }
+        match v {
+            None => {
+                acc.nontrivial();
+                acc.outcome(format!("special/{family}/ok"));
+            }
+            Some((sig, what)) => {
+                acc.outcome(format!("violation:special/{sig}"));
+                acc.violation(format!("C17/special/{family}/{sig}"), what, json!({"special": true, "source": src, "token": tok, "want": want}));
+            }
+        }
+    });
+    for p in parts {
+        acc.merge(p);
+    }
     finish(
         ctx,
         acc,
         Level { category: "model_checking", bfs: None },
-        "bounded-exhaustive enumeration: every ordered pair of 17 statement shapes (operand-less, operand-ful, every directive, multi-word, multi-byte strings, stack extension) in 3 arrangements (first statement at byte 0 / labelled with .break between / .orig in the middle), 4 origins (default, x0200, x7FFE crossing x8000, xFD00), a layout product (case, separators incl. commas, label colon, label on own line, trailing and full-line comments with multi-byte characters, indentation, .end); one debugger session per program queries `assembly` at EVERY address from origin-1 to origin+n+1 and `goto label`, `label+1`, `label-1`, `label+3` for every label; compared with the printer's statement spans and the reference symbol table. non-trivial = sessions in which every query agreed",
+        "bounded-exhaustive enumeration: every ordered pair of 17 statement shapes (operand-less, operand-ful, every directive, multi-word, multi-byte strings, stack extension) in 3 arrangements (first statement at byte 0 / labelled with .break between / .orig in the middle), 4 origins (default, x0200, x7FFE crossing x8000, xFD00), a layout product (case, separators incl. commas, label colon, label on own line, trailing and full-line comments with multi-byte characters, indentation, .end); one debugger session per program queries `assembly` at EVERY address from origin-1 to origin+n+1 and `goto label`, `label+1`, `label-1`, `label+3` for every label; compared with the printer's statement spans and the reference symbol table; plus 23 single-query sessions on labels whose spelling the command language can also read as an integer or register (b1, o7, B0, x, o, b, b2, xg, r8, _1, each bare and with +1) and on a label after the 65535th word. non-trivial = sessions in which every query agreed",
         true,
         &["session-agreed"],
         &["the printer records the exact byte span of each statement it emits", "minimal-mode debugger text is read through the tee hook"],
@@ -287,6 +369,11 @@ pub fn run(ctx: &Ctx) -> i32 {
 }
 
 pub fn replay(_ctx: &Ctx, case: &Value) -> Option<Option<String>> {
+    if case["special"].as_bool() == Some(true) {
+        let (src, tok) = (case["source"].as_str()?.to_string(), case["token"].as_str()?.to_string());
+        let want = case["want"].as_u64().map(|w| w as u16);
+        return Some(confirm_fresh(|| judge_special(&src, &tok, want)).map(|(s, w)| format!("{s}: {w}")));
+    }
     // The AST is not serialised; replay re-runs the generator and finds the program by its text.
     let src = case["source"].as_str()?;
     for wk in workload(true) {
